@@ -187,6 +187,10 @@ def printf_stmt(rng):
     nfields = rng.randint(0, 4)
     parts, args_txt, args_val, named = [], [], [], {}
     pool = named_pool()
+    if nfields == 0 and style != 'numbered' and rng.random() < 0.6:
+        # no field at all, only doubled braces: str.format halves them
+        parts.append(rng.choice(['{{}}', 'a{{b', '}}{{', '{{x}}', '{{0}} {{',
+                                 '{{', '}}', 'é{{}}\\n{{']))
     for i in range(nfields):
         parts.append(rng.choice(['', ' ', 'v=', ', ', ' - ', '%', '\\n', '# ',
                                  '{{', '}}', 'é']))
@@ -373,8 +377,88 @@ def check_case(ctx, script, segs, final_nl, replay):
     ctx.count('segments_compared', len(segs))
 
 
+# names of internal registers that a script can also use for a variable and
+# whose content does not change while a script without device commands runs
+# (`pc`, `result` and `operand` do change: no fixed expectation for them)
+INTERNAL_NAMES = ['power', 'name', 'first_zone', 'last_zone', 'first_row',
+                  'last_column', 'unit_mode', 'disc_forward', 'matrix']
+
+
+def stdout_of(script):
+    saved = sys.stdout
+    sys.stdout = Tee()
+    try:
+        r = run_script(script)
+    finally:
+        sys.stdout = saved
+    return r, ''.join(e[1] for e in r.log if e[0] == 'stdout')
+
+
+def part_named_twice(ctx):
+    """one format string executed twice, a variable of the field's name
+    coming into being (or going out of scope) in between: "named fields take
+    the *current* register or variable of that name" -- what the name meant
+    the first time says nothing about the second"""
+    rng = ctx.rng('twice', ctx.shard)
+    for _ in range(12 if ctx.tier == 'quick' else 400):
+        n = rng.choice(INTERNAL_NAMES + ['zz_fresh'])
+        v = rng.choice([11, 2.5, '"txt"', -3])
+        shown = str(v).strip('"')
+        spec = rng.choice(['', '', '!s', ':>6'])
+        if isinstance(v, str) and spec == ':>6':
+            pass
+        fld = '{' + n + spec + '}'
+        alone_r, alone = (None, None)
+        if n != 'zz_fresh':
+            alone_r, alone = stdout_of('printf "={}" println'.format(fld))
+            if not alone_r.accepted or alone_r.stops:
+                ctx.count('undecidable:register-field-alone')
+                continue
+        fmt = lambda val: '=' + ('{' + spec + '}').format(val)
+        val = v.strip('"') if isinstance(v, str) else v
+        shapes = []
+        if n != 'zz_fresh':
+            shapes.append((
+                'define report begin printf "={F}" println end report '
+                'assign {N} {V} report', [alone.rstrip('\n'), fmt(val)]))
+            shapes.append((
+                'define show with {N} begin printf "={F}" println end '
+                'show {V} printf "={F}" println show {V}',
+                [fmt(val), alone.rstrip('\n'), fmt(val)]))
+            shapes.append((
+                'repeat with zz_i from 1 to 2 begin if {{ zz_i == 2 }} '
+                'assign {N} {V} printf "={F}" println end',
+                [alone.rstrip('\n'), fmt(val)]))
+        shapes.append((
+            'define show with {N} begin printf "={F}" println end '
+            'define other with zz_o begin assign {N} 99 printf "={F}" '
+            'println end show {V} other 1 show {V}',
+            [fmt(val), fmt(99), fmt(val)]))
+        text, want = rng.choice(shapes)
+        script = text.replace('{F}', fld).replace('{N}', n).replace(
+            '{V}', str(v)).replace('{{', '{').replace('}}', '}')
+        r, out = stdout_of(script)
+        ctx.case('N2:' + script)
+        replay = {'script': script, 'part': 'named-twice'}
+        if not r.accepted or r.stops:
+            ctx.violation('named-twice:rejected-or-aborted', '{} {} | {}'
+                          .format(r.errors.strip(), r.stops[:1], script),
+                          replay)
+            continue
+        got = out.split('\n')
+        if got and got[-1] == '':
+            got.pop()
+        if got != want:
+            ctx.violation('named-twice:stale-meaning',
+                          'stdout lines {} expected {} | {}'.format(
+                              got, want, script), replay)
+        else:
+            ctx.count('named_fields_re_resolved')
+
+
 def run_shard(ctx):
     env.configure(simnet.make_devices(DEVICES), output='stdout')
+    part_named_twice(ctx)
     n = N[ctx.tier]
     for i in range(ctx.shard, n, ctx.nshards):
         rng = ctx.rng('c19', i)
@@ -408,6 +492,8 @@ def finalize(merged):
     c = merged['counters']
     if not c.get('bytes_compared') and not merged['violations']:
         merged['inconclusive'].append('no stdout text was compared')
+    if not c.get('named_fields_re_resolved') and not merged['violations']:
+        merged['inconclusive'].append('no format string was executed twice')
 
 
 def replay(doc):
